@@ -80,15 +80,52 @@ struct Case {
   std::vector<std::vector<int>> m;   // mantissas per data set, z-major order
   ExamSpec ex;
   int multi_type;            // Multi: on-disk type of the individual images
+  bool variants = false;     // single images: also read through re-spelled / re-located headers
 };
 
 static std::string g_dir;
 
-static void rm_files() {
-  DIR* d = opendir(g_dir.c_str());
+static std::string std_key(const std::string& k);
+static void rm_files_in(const std::string& dir) {
+  DIR* d = opendir(dir.c_str());
   if (!d) return;
-  while (dirent* e = readdir(d)) { if (e->d_name[0] == '.') continue; std::string p = g_dir + "/" + e->d_name; unlink(p.c_str()); }
+  while (dirent* e = readdir(d)) { if (e->d_name[0] == '.') continue; std::string p = dir + "/" + e->d_name; unlink(p.c_str()); }
   closedir(d);
+}
+static void rm_files() { rm_files_in(g_dir + "/sub"); rmdir((g_dir + "/sub").c_str()); rm_files_in(g_dir); }
+
+// Re-writes a header that write_to_file produced in another legal spelling / place (the DATA file is untouched):
+//   "rel"  header in a sub-directory, data file named relative to the header's directory (../name)
+//   "abs"  header in a sub-directory, data file named by its absolute path
+//   "text" same directory; comment lines, blank lines, upper-case keys, extra blanks around := and at line ends
+// returns the name of the new header ("" on failure)
+static std::string header_variant(const std::string& hv, const std::string& variant) {
+  std::ifstream in(hv.c_str());
+  if (!in) return "";
+  const std::string base = hv.substr(hv.find_last_of('/') + 1);
+  std::string out_name;
+  if (variant == "text") out_name = g_dir + "/v_" + base;
+  else { mkdir((g_dir + "/sub").c_str(), 0777); out_name = g_dir + "/sub/" + base; }
+  std::ofstream out(out_name.c_str());
+  std::string line; int n = 0;
+  while (std::getline(in, line)) {
+    ++n;
+    const size_t p = line.find(":=");
+    std::string k = p == std::string::npos ? line : line.substr(0, p), v = p == std::string::npos ? "" : line.substr(p + 2);
+    if (std_key(k) == "nameofdatafile") {
+      size_t a = v.find_first_not_of(" \t");
+      const std::string name = a == std::string::npos ? "" : v.substr(a);
+      if (variant == "rel") v = " ../" + name;
+      else if (variant == "abs") v = " " + g_dir + "/" + name;
+    }
+    if (variant == "text" && p != std::string::npos) {
+      if (n > 1) for (char& ch : k) ch = (char)toupper(ch);
+      out << k << "   :=  " << v << "   \n";
+      if (n % 3 == 1) out << "; a comment line := with a separator\n\n";
+    } else if (p != std::string::npos) out << k << ":=" << v << "\n";
+    else out << line << "\n";
+  }
+  return out_name;
 }
 
 // ---------------------------------------------------------------- building the STIR objects
@@ -268,6 +305,18 @@ static std::string own_decode(const std::string& hdrname, int p /* F exponent */
   j.str("rn", get(kv, "radionuclidename[1]", "-")).num("hlms", satd(getd(kv, "radionuclidehalflife(sec)[1]", -1) * 1000.)).num("brppm", satd(getd(kv, "radionuclidebranchingfactor[1]", -1) * 1.e6));
   j.num("lo8", satd(getd(kv, "energywindowlowerlevel[1]", -1) * 8.)).num("hi8", satd(getd(kv, "energywindowupperlevel[1]", -1) * 8.)).num("cal4", satd(getd(kv, "calibrationfactor", -1) * 4.));
   j.boolean("hasQU", has(kv, "quantificationunits"));
+  // the old-style ".ahv" convenience header written next to the .hv header
+  {
+    std::map<std::string, std::string> av;
+    const std::string ahvname = hdrname.substr(0, hdrname.find_last_of('.')) + ".ahv";
+    const bool ap = own_parse_header(ahvname, av);
+    std::vector<long long> am = { (long long)getd(av, "matrixsize[1]", 0), (long long)getd(av, "matrixsize[2]", 0) };
+    std::vector<long long> avx(2), avr(2);
+    q8(getd(av, "scalingfactor(mm/pixel)[1]", 0), avx[0], avr[0]); q8(getd(av, "scalingfactor(mm/pixel)[2]", 0), avx[1], avr[1]);
+    j.raw("ahv", vh::Json().boolean("present", ap).num("nimg", (long long)getd(av, "totalnumberofimages", 0)).arr("msize", am).arr("vox", avx).arr("voxR", avr)
+                     .num("bpp", (long long)getd(av, "numberofbytesperpixel", 0)).str("bo", get(av, "imagedatabyteorder", "-")).str("nf", get(av, "numberformat", "-"))
+                     .str("data", get(av, "nameofdatafile", "-")).done());
+  }
   // data sets
   const std::string dataname = hdrname.substr(0, hdrname.find_last_of('/') + 1) + get(kv, "nameofdatafile");
   const long dlen = file_size(dataname);
@@ -375,14 +424,15 @@ static void emit_write(vh::Trace& tr, const Case& c, const Written& w, int bo_ef
   tr.emit(j);
 }
 
-static void emit_read_fail(vh::Trace& tr, const Case& c, bool threw) {
-  tr.emit(vh::Json("Read").num("id", c.id).boolean("ok", false).boolean("err", threw));
+static void emit_read_fail(vh::Trace& tr, const Case& c, bool threw, const char* variant = "as written") {
+  tr.emit(vh::Json("Read").num("id", c.id).str("header", variant).boolean("ok", false).boolean("err", threw));
 }
 
-static void emit_read(vh::Trace& tr, const Case& c, const std::vector<const Vox*>& frames, const ExamInfo& exam, const std::vector<std::vector<int>>& probes) {
+static void emit_read(vh::Trace& tr, const Case& c, const std::vector<const Vox*>& frames, const ExamInfo& exam, const std::vector<std::vector<int>>& probes,
+                      const char* variant = "as written") {
   const int k = kbits_for(c);
   vh::Json j("Read");
-  j.num("id", c.id).boolean("ok", true).boolean("err", false).num("nd", (long long)frames.size());
+  j.num("id", c.id).str("header", variant).boolean("ok", true).boolean("err", false).num("nd", (long long)frames.size());
   std::vector<std::string> g, vals, bits;
   for (auto f : frames) {
     // probe offsets are clipped to the size actually read (a wrong size is reported by "size")
@@ -393,7 +443,15 @@ static void emit_read(vh::Trace& tr, const Case& c, const std::vector<const Vox*
     std::vector<long long> fx; std::vector<int> b; vals_of(*f, k - c.vexp, fx, b);
     vals.push_back(arr_raw(fx)); bits.push_back(arr_raw(b));
   }
-  j.raw("geo", join_raw(g)).raw("vals", join_raw(vals)).raw("bits", join_raw(bits)).raw("exam", exam_json(exam));
+  // time frames carried by each individual frame / parameter image (get_density(d), construct_single_density(d))
+  std::vector<std::string> ftf;
+  for (auto f : frames) {
+    const TimeFrameDefinitions& t = f->get_exam_info().time_frame_definitions;
+    std::vector<std::vector<long long>> fr;
+    for (unsigned i = 1; i <= t.get_num_frames(); ++i) fr.push_back({ satd(t.get_start_time(i) * 1000.), satd(t.get_duration(i) * 1000.) });
+    vh::Json x; x.arr2("f", fr); ftf.push_back(x.done());
+  }
+  j.raw("geo", join_raw(g)).raw("vals", join_raw(vals)).raw("bits", join_raw(bits)).raw("ftf", join_raw(ftf)).raw("exam", exam_json(exam));
   tr.emit(j);
 }
 
@@ -431,6 +489,16 @@ static void run_case(vh::Trace& tr, const Case& c, vh::Rng& rng, bool trunc) {
     const Vox* rv = rd ? dynamic_cast<const Vox*>(rd.get()) : nullptr;
     if (th || !rv) emit_read_fail(tr, c, th);
     else emit_read(tr, c, { rv }, rv->get_exam_info(), probes);
+    // the same file through other legal spellings / locations of its header (name-of-data-file resolution, KeyParser syntax)
+    if (w.ok && c.variants)
+      for (const char* variant : { "rel", "abs", "text" }) {
+        const std::string hv2 = header_variant(w.hdrfiles[0], variant);
+        unique_ptr<Dens> rd2;
+        bool th2 = vh::threw([&] { rd2 = read_from_file<Dens>(hv2); }, &msg);
+        const Vox* rv2 = rd2 ? dynamic_cast<const Vox*>(rd2.get()) : nullptr;
+        if (th2 || !rv2) emit_read_fail(tr, c, th2, variant);
+        else emit_read(tr, c, { rv2 }, rv2->get_exam_info(), probes, variant);
+      }
   } else if (c.kind == "dyn") {
     shared_ptr<Vox> tmpl = make_vox(c, ei);
     std::vector<std::pair<double, double>> se;
@@ -583,7 +651,10 @@ static void gen_exam(Case& c, vh::Rng& rng) {
   e.frames.clear();
   // special values: first frame starting exactly at 0, duration exactly 1 s, frames back to back
   double t = rng.range(0, 2) == 0 ? 0. : rng.range(0, 400) / 8.;
-  for (int f = 0; f < nf; ++f) { double d = rng.range(0, 3) == 0 ? 1. : rng.range(1, 800) / 8.; e.frames.push_back({ t, d }); t += d + (rng.coin() ? 0. : rng.range(0, 16) / 8.); }
+  for (int f = 0; f < nf; ++f) { double d = rng.range(0, 3) == 0 ? 1. : rng.range(1, 800) / 8.; e.frames.push_back({ t, d }); 
+    // next frame: back to back or after a gap (TimeFrameDefinitions refuses overlapping frames: "start_time is smaller
+    // than previous end_time", so those cannot be written at all)
+    t += rng.coin() ? d : d + rng.range(1, 16) / 8.; }
   e.rn = rng.range(0, 3);
   if (e.modality != ImagingModality::PT && e.modality != ImagingModality::NM && (e.rn == 1 || e.rn == 2)) e.rn = 0;
   static const double LO[] = { -1, -1, 0, 350, 425.5, 100.125 }, HI[] = { -1, 650, 650, 650, 600.25, 700 };
@@ -671,6 +742,7 @@ int main(int argc, char** argv) {
       else if (scale_setting == 3) { c.scale_m = 1; c.scale_e = c.vexp + bl - tb - 3; }
       // keep the requested scale a normal single-precision number; otherwise fall back to the automatic setting
       if (c.scale_m && (c.scale_e < -120 || c.scale_e > 120)) { c.scale_m = 0; c.scale_e = 0; }
+      c.variants = c.kind == "single" && n % 3 == 0;
       emit_env();
       run_case(tr, c, rng, false);
     }
